@@ -21,7 +21,9 @@ ARRAYS = ["[a, b]", "[]", "[a]", "['l1', 'l2']", "[a, , b]", "[...r]", "[a, ...r
 RECEIVERS = ["a", "'lit'", "f()", "o.p", "o.prototype", "o[k]", "(a)", "[a, b]", "this", "`t${a}`", "a.trim()", "o.p.q", "new F()", "42", "a?.b", "super.x",
              # member paths that merely pass through (or start at) something called prototype
              "Foo.prototype.label", "this.prototype.x.y", "o.constructor.prototype.id", "prototype.name", "o.prototype.prototype", "o.p.prototype",
-             "o[k].prototype.v", "f().prototype.w", "o.call", "o.apply.p", "o.p.call", "a.b.c.d.e", "this.a", "o['prototype'].z", "(o.prototype).y"]
+             "o[k].prototype.v", "f().prototype.w", "o.call", "o.apply.p", "o.p.call", "a.b.c.d.e", "this.a", "o['prototype'].z", "(o.prototype).y",
+             # optional calls whose callee is a member access: the receiver is the call's this
+             "o?.m?.(a)", "o.p?.m?.(a, b)", "(o.m)?.(a)", "o?.[k]?.(a)", "o?.p.m?.(a)", "o.m?.(a)", "f?.(a)"]
 METHODS = ["trim", "substring", "concat", "replace", "slice", "trimStart", "toUpperCase", "padStart", "call", "apply"]
 THIS_ARGS = ["a", "'lit'", "f()", "o.p", "...r", "undefined", "[a]", "this", "a + b"]
 
